@@ -69,6 +69,7 @@ type Output struct {
 	Facts      []Fact   `json:"facts"`
 	Fields     []Field  `json:"fields"`
 	Unresolved []Unres  `json:"unresolved"`
+	Funcs      []string `json:"funcs"` // every function and function literal of the analysed packages
 	Files      []string `json:"files"`
 	TypeErrors int      `json:"type_errors"`
 }
@@ -739,9 +740,11 @@ func (a *analyzer) funcDecl(fd *ast.FuncDecl) {
 		if fl, ok := nd.(*ast.FuncLit); ok {
 			n++
 			closures[fl] = fmt.Sprintf("%s$%d", name, n)
+			a.out.Funcs = append(a.out.Funcs, closures[fl])
 		}
 		return true
 	})
+	a.out.Funcs = append(a.out.Funcs, name)
 	entry := heldSet{}
 	for _, r := range a.spec.Requires[name] {
 		entry[lockKey{r.Mutex, recvVar}] = r.Mode
@@ -974,60 +977,124 @@ func main() {
 		}
 	}
 	if *leanOut != "" {
-		type key struct {
-			loc, fn, kind, held string
-			fresh               bool
-		}
-		seen := map[key]bool{}
-		var lines []string
-		for _, f := range out.Facts {
-			hs := []string{}
-			for _, h := range f.Held {
-				hs = append(hs, fmt.Sprintf("(%s, .%s)", leanStr(h.Mutex), h.Mode))
-			}
-			k := key{f.Loc, f.Fn, f.Kind, strings.Join(hs, ", "), f.Fresh}
-			if seen[k] {
-				continue
-			}
-			seen[k] = true
-			lines = append(lines, fmt.Sprintf("  ⟨%s, %s, .%s, [%s], %v⟩", leanStr(f.Loc), leanStr(f.Fn), f.Kind, k.held, f.Fresh))
-		}
-		sort.Strings(lines)
-		var fl []string
-		for _, f := range out.Fields {
-			fl = append(fl, "  "+leanStr(f.Loc))
-		}
-		var sb strings.Builder
-		sb.WriteString("import Refinery.Model.Locks\n")
-		sb.WriteString("/- GENERATED on every run by tools/check C35 (harness/locks-extract) from the current tree of\n")
-		sb.WriteString("   the repository: every lexical access to a field of the tracked structs with the mutexes of\n")
-		sb.WriteString("   the same receiver expression held at that point.  Do not edit. -/\n")
-		sb.WriteString("namespace Refinery.Gen.Access\nopen Refinery.Locks\n\n")
-		sb.WriteString("def declaredFields : List String := [\n" + strings.Join(fl, ",\n") + "]\n\n")
-		sb.WriteString("def accessFacts : List Fact := [\n" + strings.Join(lines, ",\n") + "]\n\n")
-		var ul []string
-		useen := map[string]bool{}
-		for _, u := range out.Unresolved {
-			l := fmt.Sprintf("  (%s, %s)", leanStr(u.Name), leanStr(u.Fn))
-			if !useen[l] {
-				useen[l] = true
-				ul = append(ul, l)
-			}
-		}
-		sort.Strings(ul)
-		sb.WriteString("/-- selectors named like a tracked field whose base expression has a type the stub importer\n    cannot resolve (field name, function) -/\n")
-		sb.WriteString("def unresolvedSelectors : List (String × String) := [\n" + strings.Join(ul, ",\n") + "]\n\n")
-		sb.WriteString("end Refinery.Gen.Access\n")
-		old, _ := os.ReadFile(*leanOut)
-		if string(old) != sb.String() {
-			tmp := fmt.Sprintf("%s.%d", *leanOut, os.Getpid())
-			if err := os.WriteFile(tmp, []byte(sb.String()), 0o644); err != nil {
-				fmt.Fprintln(os.Stderr, err)
-				os.Exit(2)
-			}
-			os.Rename(tmp, *leanOut)
+		if err := writeLean(*leanOut, out, &spec); err != nil {
+			fmt.Fprintln(os.Stderr, err)
+			os.Exit(2)
 		}
 	}
 	fmt.Printf("facts=%d fields=%d unresolved=%d type_errors=%d files=%d\n",
 		len(out.Facts), len(out.Fields), len(out.Unresolved), out.TypeErrors, len(out.Files))
+}
+
+func leanIdent(s string) string { return "«" + s + "»" }
+
+// writeLean renders the facts as a Lean module. Locations and functions become named Nat constants
+// (namespaces L and F) so that hand-written tables refer to them by name while the kernel compares
+// numbers.
+func writeLean(path string, out *Output, spec *Spec) error {
+	var locs []string
+	locID := map[string]int{}
+	addLoc := func(l string) {
+		if _, ok := locID[l]; !ok {
+			locID[l] = len(locs)
+			locs = append(locs, l)
+		}
+	}
+	for _, f := range out.Fields {
+		addLoc(f.Loc)
+	}
+	var reqs []string
+	for k := range spec.Requires {
+		reqs = append(reqs, k+"()")
+	}
+	sort.Strings(reqs)
+	for _, r := range reqs {
+		addLoc(r)
+	}
+	fnSet := map[string]bool{}
+	for _, f := range out.Funcs {
+		fnSet[f] = true
+	}
+	var fns []string
+	for f := range fnSet {
+		fns = append(fns, f)
+	}
+	sort.Strings(fns)
+	var sb strings.Builder
+	sb.WriteString("import Refinery.Model.Locks\n")
+	sb.WriteString("/- GENERATED on every run by tools/check C35 (harness/locks-extract) from the current tree of\n")
+	sb.WriteString("   the repository: every lexical access to a field of the tracked structs with the mutexes of\n")
+	sb.WriteString("   the same receiver expression held at that point.  Do not edit. -/\n")
+	sb.WriteString("namespace Refinery.Gen.Access\nopen Refinery.Locks\n\n")
+	sb.WriteString("/-! Locations: `Struct.field` of the tracked structs (`Struct.field*` = the object the field refers\n    to, `Struct.method()` = call sites of a method that requires a mutex). -/\nnamespace L\n")
+	for i, l := range locs {
+		sb.WriteString(fmt.Sprintf("def %s : Nat := %d\n", leanIdent(l), i))
+	}
+	sb.WriteString("end L\n\n/-! Functions and function literals (`Outer$n`) of the analysed packages. -/\nnamespace F\n")
+	for i, f := range fns {
+		sb.WriteString(fmt.Sprintf("def %s : Nat := %d\n", leanIdent(f), i))
+	}
+	sb.WriteString("end F\n\n")
+	q := func(xs []string) string {
+		var o []string
+		for _, x := range xs {
+			o = append(o, leanStr(x))
+		}
+		return strings.Join(o, ", ")
+	}
+	sb.WriteString("def locNames : List String := [" + q(locs) + "]\n\n")
+	sb.WriteString("def fnNames : List String := [" + q(fns) + "]\n\n")
+	var fl []string
+	for _, f := range out.Fields {
+		fl = append(fl, "  L."+leanIdent(f.Loc))
+	}
+	sb.WriteString("def declaredFields : List Nat := [\n" + strings.Join(fl, ",\n") + "]\n\n")
+	type key struct {
+		loc, fn, kind, held string
+		fresh               bool
+	}
+	seen := map[key]bool{}
+	var lines []string
+	for _, f := range out.Facts {
+		hs := []string{}
+		for _, h := range f.Held {
+			hs = append(hs, fmt.Sprintf("(L.%s, .%s)", leanIdent(h.Mutex), h.Mode))
+		}
+		k := key{f.Loc, f.Fn, f.Kind, strings.Join(hs, ", "), f.Fresh}
+		if seen[k] {
+			continue
+		}
+		seen[k] = true
+		if _, ok := locID[f.Loc]; !ok {
+			return fmt.Errorf("fact for undeclared location %s", f.Loc)
+		}
+		lines = append(lines, fmt.Sprintf("%06d  ⟨L.%s, F.%s, .%s, [%s], %v⟩", locID[f.Loc], leanIdent(f.Loc), leanIdent(f.Fn), f.Kind, k.held, f.Fresh))
+	}
+	sort.Strings(lines) // by location id, then text
+	for i := range lines {
+		lines[i] = lines[i][6:]
+	}
+	sb.WriteString("def accessFacts : List Fact := [\n" + strings.Join(lines, ",\n") + "]\n\n")
+	var ul []string
+	useen := map[string]bool{}
+	for _, u := range out.Unresolved {
+		l := fmt.Sprintf("  (%s, %s)", leanStr(u.Name), leanStr(u.Fn))
+		if !useen[l] {
+			useen[l] = true
+			ul = append(ul, l)
+		}
+	}
+	sort.Strings(ul)
+	sb.WriteString("/-- selectors named like a tracked field whose base expression has a type the stub importer\n    cannot resolve (field name, function) -/\n")
+	sb.WriteString("def unresolvedSelectors : List (String × String) := [\n" + strings.Join(ul, ",\n") + "]\n\n")
+	sb.WriteString("end Refinery.Gen.Access\n")
+	old, _ := os.ReadFile(path)
+	if string(old) == sb.String() {
+		return nil
+	}
+	tmp := fmt.Sprintf("%s.%d", path, os.Getpid())
+	if err := os.WriteFile(tmp, []byte(sb.String()), 0o644); err != nil {
+		return err
+	}
+	return os.Rename(tmp, path)
 }
